@@ -131,10 +131,26 @@ def generate(seed, tier="quick", **opts):
     r = random.Random(seed)
     kind = r.choices(["v4", "v6", "small"], [50, 33, 17])[0]
     cfgs = [_cfg(r, kind)]
-    # noise configuration: same kind with another salt, or the other family
-    nk = r.choice([kind, "v6" if kind != "v6" else "v4"])
-    cfgs.append(_cfg(r, nk))
+    # noise configuration: a sibling of the main one (same salt, other host bits / preserve lists), the same
+    # kind with another salt, or the other family
+    c = r.random()
+    if c < 0.45:
+        sib = dict(cfgs[0])
+        which = r.random()
+        if which < 0.6 or kind != "v4":
+            w = cfgs[0]["width"]
+            sib["suffix"] = r.choice([x for x in (None, 0, 8, 1, min(16, w - 1), w // 2) if x != cfgs[0]["suffix"]])
+        elif which < 0.8:
+            sib["pp"] = None if cfgs[0]["pp"] is not None else [_rand_net4(r)]
+        else:
+            sib["pa"] = None if cfgs[0]["pa"] else ["10.9.8.0/24"]
+        cfgs.append(sib)
+    else:
+        nk = kind if c < 0.75 else ("v6" if kind != "v6" else "v4")
+        cfgs.append(_cfg(r, nk))
     pools = [_pool(r, c) for c in cfgs]
+    if cfgs[1]["kind"] == cfgs[0]["kind"] and cfgs[1]["width"] == cfgs[0]["width"]:
+        pools[1] = pools[0]          # siblings are asked about the very same addresses
     names = ["A", "B", "C"][: r.randint(1, 3)]
     nops = r.randint(5, 40 if kind != "v6" else 28)
     ops = []
@@ -143,8 +159,8 @@ def generate(seed, tier="quick", **opts):
     for n in range(nops):
         c = r.random()
         op = {"id": n}
-        if c < 0.08 and names:
-            op.update(op="noise", i="N", dir=r.choice(["anon", "deanon"]), x=r.choice(pools[1]))
+        if c < 0.12 and names:
+            op.update(op="noise", i="N", dir=r.choice(["anon", "anon", "deanon"]), x=r.choice(pools[1]))
         elif c < 0.40:
             op.update(op="anon", i=r.choice(names), x=r.choice(pools[0]))
             if hist["deanon"] and r.random() < 0.35:
